@@ -12,8 +12,8 @@ theorem wrap64_min : Msl.wrap64 (-2147483648) = -2147483648 := by decide
 
 /-- `generate_literal` for the typed constants: same value; static type the constant's type, except `Int32(i32::MIN)`,
 whose magnitude 2147483648 does not fit `int`: the literal is a `long` and so is its negation -/
-theorem sim_litM (W : World) (M : Msl.MWorld) (env : Ast.Env) (c : Const) (a : HlslAst.Expr)
-    (hc : Ir.okM (side (cx := cx) W vis rsv) (.lit c) = true)
+theorem sim_litM (W : World) (M : Msl.MWorld) (env : Ast.Env) (S : Ir.Side) (c : Const) (a : HlslAst.Expr)
+    (hc : Ir.okM S (.lit c) = true)
     (hg : GenMsl.genLiteral c = .ok a) : SimM W M env (.lit c) a c.ty := by
   rw [genLiteral_eq] at hg
   cases c with
